@@ -58,6 +58,8 @@ def check_transition(ctx, before: dict, after: dict, ap: mdibops.Applied, hist_l
             if h not in b or h not in a or not tolerant_equal(b[h], a[h]):
                 changed.add((kind, h))
     detail = {'op': op, 'outcome': ap.outcome, 'mdib_version': [vb, va], **hist_label}
+    if ap.tb:
+        detail['raised_at'] = ap.tb
     opk = op['op'] + ('.' + op['sub'] if op.get('sub') else '')
     if ap.expect in ('empty', 'abort', 'reject') or ap.outcome != 'ok':
         if va != vb:
@@ -96,6 +98,9 @@ def check_transition(ctx, before: dict, after: dict, ap: mdibops.Applied, hist_l
     return changed
 
 
+WEIGHTS = dict(mdibops.DEFAULT_WEIGHTS, ctx_delete=2, exotic=1)   # provider only: removal of context states through the entity interface included
+
+
 def w_histories(ctx: core.Ctx, arg):
     from sdc11073.mdib import ProviderMdib
     rng = ctx.rng('hist', arg['i'])
@@ -109,7 +114,7 @@ def w_histories(ctx: core.Ctx, arg):
         label = {'mdib_file': mdib_file, 'history': [arg['i'], hno]}
         ops_done = []
         for step in range(arg['len']):
-            op = mdibops.gen_op(rng, mdib, memo)
+            op = mdibops.gen_op(rng, mdib, memo, WEIGHTS)
             before = hist.last
             ap = mdibops.apply_op(mdib, op, memo)
             after = hist.record()
@@ -120,7 +125,7 @@ def w_histories(ctx: core.Ctx, arg):
                 ctx.count(f'commit_raised.{op["op"]}.{ap.outcome}')
                 ctx.extra.setdefault('commit_raised_samples', [])
                 if len(ctx.extra['commit_raised_samples']) < 5:
-                    ctx.extra['commit_raised_samples'].append({'op': op, 'outcome': ap.outcome, 'ex': repr(ap.exception)[:300]})
+                    ctx.extra['commit_raised_samples'].append({'op': op, 'outcome': ap.outcome, 'ex': repr(ap.exception)[:300], 'tb': ap.tb})
             changed = check_transition(ctx, before, after, ap, {**label, 'step': step})
             if changed:
                 ctx.count('transitions.with_changes')
@@ -148,7 +153,10 @@ def w_templates(ctx: core.Ctx, arg):
     mdib_file = MDIB_FILES[arg['i'] % len(MDIB_FILES)]
     base = load_mdib_bytes(mdib_file)
     subs = ['update_parent+add_child', 'add_child+update_parent', 'update_parent+update_child', 'update_child+update_parent',
-            'update_parent+remove_child', 'remove_child+update_parent']
+            'update_parent+remove_child', 'remove_child+update_parent',
+            'add_child+add_child+update_parent', 'add_child+remove_child+update_parent', 'remove_child+add_child+update_parent',
+            'update_parent+add_child+add_child', 'add_child+update_parent+add_child', 'remove_child+remove_child+update_parent',
+            'add_child+add_child+add_child+update_parent']
     probe = ProviderMdib.from_string(base)
     channels = mdibops.catalog(probe)['channel'][:arg.get('max_channels', 3)]
     for parent in channels:
@@ -158,10 +166,13 @@ def w_templates(ctx: core.Ctx, arg):
                 mdib.instance_id = 1
                 hist = History(mdib)
                 children = sorted(d.Handle for d in mdib.descriptions.parent_handle.get(parent, []))
-                if ('update_child' in sub or 'remove_child' in sub) and not children:
+                need = sub.count('update_child') + sub.count('remove_child')
+                if need > len(children):
                     continue
-                child = children[0] if ('update_child' in sub or 'remove_child' in sub) else 'tmpl_new_child'
-                ops = [{'op': 'descr_parent_child', 'sub': sub, 'parent': parent, 'child': child, 'iface': iface, 'seed': rng.randrange(1 << 30)}]
+                old_children = children[:need]
+                new_children = [f'tmpl_new_child{i}' for i in range(sub.count('add_child'))]
+                ops = [{'op': 'descr_parent_child', 'sub': sub, 'parent': parent, 'child': (old_children + new_children)[0], 'old_children': old_children,
+                        'new_children': new_children, 'iface': iface, 'seed': rng.randrange(1 << 30)}]
                 # follow-up transactions on the same objects (versions must keep increasing)
                 ops.append({'op': 'descr_update', 'handles': [parent], 'iface': iface, 'seed': rng.randrange(1 << 30)})
                 for step, op in enumerate(ops):
